@@ -150,6 +150,17 @@ theorem valInv_step {s s' : G} {l : Label} (h : ValInv s) (hx : excluded s l = f
       split <;> rfl
     · cases hs
       exact valInv_alloc_fresh h k _ rfl
+  | lspLookup k =>
+    simp only [gstep] at hs
+    split at hs
+    · rename_i e _
+      cases hs
+      refine valInv_frame h rfl (Nat.le_succ _) ?_
+      intro i
+      simp only [bumpVal, updEnt]
+      split <;> rfl
+    · cases hs
+      exact valInv_alloc_fresh h k _ rfl
   | lsRead e v =>
     simp only [gstep] at hs
     split at hs
@@ -175,8 +186,10 @@ theorem valInv_step {s s' : G} {l : Label} (h : ValInv s) (hx : excluded s l = f
   | del2 e =>
     simp only [gstep] at hs
     split at hs
-    · split at hs <;> cases hs <;>
-        exact valInv_frame h rfl (Nat.le_refl _) (updEnt_value s _ _ (fun _ => rfl))
+    · split at hs
+      · cases hs; exact valInv_frame h rfl (Nat.le_refl _) (updEnt_value s _ _ (fun _ => rfl))
+      · split at hs <;> cases hs <;>
+          exact valInv_frame h rfl (Nat.le_refl _) (updEnt_value s _ _ (fun _ => rfl))
     · cases hs
   | del3 e =>
     simp only [gstep] at hs
